@@ -119,7 +119,10 @@ func mkCorpus(sel []int) corpus {
 }
 
 func classOf(eng string, q *ref.Q, kind string) string {
-	sh := ref.Shape(q)
+	sh := ref.ShapeAbs(q)
+	if sh == "·" {
+		sh = q.Kind
+	}
 	if q.Kind == "prefix" && q.Text == "" {
 		sh = "prefix(empty)"
 	}
